@@ -22,32 +22,36 @@ structure CInv (stamp : Bool) (now : Int) (st : Bool) (lbt : Int) (inq : Prop) (
   px : ¬inq → ∀ g p2, G = some g → P2 = some p2 → p2 ≤ g
   r1 : stamp = true → st = false → ∀ p, P = some p → p ≤ lbt
   r2 : stamp = true → inq → ∀ p g, P = some p → G = some g → p + T ≤ g
+  /-- a blocked record's `lastBlockTime` is not in the future -/
+  lb : st = false → lbt ≤ now
 
 namespace CInv
 variable {stamp : Bool} {now : Int} {st : Bool} {lbt : Int} {inq : Prop} {G P P2 : Option Int}
 
 theorem advance (h : CInv stamp now st lbt inq G P P2) (d : Nat) : CInv stamp (now + d) st lbt inq G P P2 :=
-  { h with g1 := fun t ht => (by have := h.g1 t ht; omega), p1 := fun t ht => (by have := h.p1 t ht; omega) }
+  { h with g1 := fun t ht => (by have := h.g1 t ht; omega), p1 := fun t ht => (by have := h.p1 t ht; omega),
+           lb := fun hs => (by have := h.lb hs; omega) }
 
 /-- same facts under an equivalent queue-membership proposition -/
 theorem congr_inq {inq' : Prop} (h : CInv stamp now st lbt inq G P P2) (e : inq' ↔ inq) :
     CInv stamp now st lbt inq' G P P2 :=
   { g1 := h.g1, g2 := h.g2, p1 := h.p1, p4 := h.p4, p5 := h.p5, py := fun hi => h.py (e.mp hi),
-    px := fun hi => h.px (fun x => hi (e.mpr x)), r1 := h.r1, r2 := fun hs hi => h.r2 hs (e.mp hi) }
+    px := fun hi => h.px (fun x => hi (e.mpr x)), r1 := h.r1, r2 := fun hs hi => h.r2 hs (e.mp hi), lb := h.lb }
 
 /-- `lastBlockTime := now` (any status afterwards) -/
 theorem stampNow (h : CInv stamp now st lbt inq G P P2) (st' : Bool) : CInv stamp now st' now inq G P P2 :=
-  { h with g2 := fun _ t ht => h.g1 t ht, r1 := fun _ _ p hp => h.p1 p hp }
+  { h with g2 := fun _ t ht => h.g1 t ht, r1 := fun _ _ p hp => h.p1 p hp, lb := fun _ => Int.le_refl _ }
 
 /-- status and lastBlockTime unchanged or status set to true -/
 theorem setActive (h : CInv stamp now st lbt inq G P P2) (lbt' : Int) : CInv stamp now true lbt' inq G P P2 :=
-  { h with g2 := fun hf => (by cases hf), r1 := fun _ hf => (by cases hf) }
+  { h with g2 := fun hf => (by cases hf), r1 := fun _ hf => (by cases hf), lb := fun hf => (by cases hf) }
 
 /-- a probe candidate is queued: blocked, not queued, `T` seconds after lastBlockTime -/
 theorem grant (h : CInv stamp now false lbt inq G P P2) (hn : ¬inq) (ht : T ≤ now - lbt) {inq' : Prop} (hi : inq') :
     CInv stamp now false now inq' (some now) P P2 := by
   have hG : ∀ g, G = some g → g + T ≤ now := fun g hg => by have := h.g2 rfl g hg; omega
-  refine { g1 := ?_, g2 := ?_, p1 := h.p1, p4 := ?_, p5 := h.p5, py := ?_, px := ?_, r1 := ?_, r2 := ?_ }
+  refine { g1 := ?_, g2 := ?_, p1 := h.p1, p4 := ?_, p5 := h.p5, py := ?_, px := ?_, r1 := ?_, r2 := ?_,
+           lb := fun _ => Int.le_refl _ }
   · intro t e; cases e; exact Int.le_refl _
   · intro _ t e; cases e; exact Int.le_refl _
   · intro t _; exact ⟨now, rfl⟩
@@ -71,7 +75,12 @@ theorem pop (h : CInv stamp now st lbt inq G P P2) (hi : inq) {inq' : Prop} (hn 
     (hl : (stamp = true → lbt' = now) ∧ (stamp = false → lbt' = lbt)) :
     CInv stamp now st lbt' inq' G (some now) P := by
   obtain ⟨g, hg, hgp, hgp2⟩ := h.py hi
-  refine { g1 := h.g1, g2 := ?_, p1 := ?_, p4 := ?_, p5 := ?_, py := ?_, px := ?_, r1 := ?_, r2 := ?_ }
+  refine { g1 := h.g1, g2 := ?_, p1 := ?_, p4 := ?_, p5 := ?_, py := ?_, px := ?_, r1 := ?_, r2 := ?_, lb := ?_ }
+  rotate_right
+  · intro hs
+    cases hst : stamp
+    · rw [hl.2 hst]; exact h.lb hs
+    · rw [hl.1 hst]; exact Int.le_refl _
   · intro hs t ht
     cases hst : stamp
     · rw [hl.2 hst]; exact h.g2 hs t ht
@@ -136,7 +145,7 @@ theorem init_invT (stamp : Bool) (reg : List Nat) (now0 : Int) : InvT (init stam
            c := ?_, okG := trivial, okP3 := trivial, okP2 := fun _ => trivial }
   intro ep
   simp only [cview, init, lastGrant, lastProbe, prevProbe]
-  constructor <;> simp
+  constructor <;> simp [Rec.fresh]
 
 theorem emit_neutral_invT {s : Mgr} (h : InvT s) (e : Event) (hg : ∀ ep t, e ≠ .grant ep t)
     (hp : ∀ ep t, e ≠ .picked ep true t) : InvT (emit s e) := by
